@@ -2,7 +2,7 @@
     Lemmas closed by [reflexivity] state a syntactic identity between the translated expression and the model's: if an
     expression of the source changes (a dropped minus sign, [>] for [>=] in the guard, a rounded reciprocal instead of the
     quotient, [<=] for [<] in an availability threshold, swapped latent blocks, a weight paired with another transformation,
-    the tmajor flag computed by the tminor test, a replicate buffer with more rows than replicates drawn) the regenerated
+    the tmajor flag computed by the tminor test, a flag cached by the tfreq setter, a replicate buffer with more rows than replicates drawn) the regenerated
     definition no longer unfolds to the model's and this file — hence Props/C05.vo — stops compiling.  The remaining lemmas
     restate the availability, scale-invariance, evalfn and EMBV theorems about the generated definitions themselves. *)
 From Coq Require Import PrimFloat Permutation.
@@ -97,15 +97,16 @@ Lemma pfreq_f_kernel pl G s j :
   pfreq_f pl G s j = k_pfreq__pau (f_of_Z (acount G s j)) (f_of_Z (k_pfreq_den__pau pl (Z.of_nat (length s)))) /\
   pfreq_f pl G s j = k_pfreq__mogs (f_of_Z (acount G s j)) (f_of_Z (k_pfreq_den__mogs pl (Z.of_nat (length s)))).
 Proof. split; reflexivity. Qed.
-(** the PAU pipeline of the source: thresholds, flag algebra, and the flags the tfreq setter stores *)
+(** the PAU pipeline of the source: thresholds, flag algebra, and the flags the properties tminor / thet / tmajor compute on
+    access from the target array held (k_pau_flag_*; the translator refuses a setter that stores anything but the array) *)
 Definition k_pau_pipeline (pf : float) (tfv : Q) : bool :=
   let lt := k_pau_lt pf in let gt := k_pau_gt pf in
-  k_pau_unavail lt gt (k_pau_het lt gt) (k_pau_set_tminor tfv) (k_pau_set_thet tfv) (k_pau_set_tmajor tfv).
+  k_pau_unavail lt gt (k_pau_het lt gt) (k_pau_flag_tminor tfv) (k_pau_flag_thet tfv) (k_pau_flag_tmajor tfv).
 Lemma k_pau_pipeline_model pf tfv : k_pau_pipeline pf tfv = pau_unavail_code pf tfv.
 Proof. reflexivity. Qed.
 Lemma k_tflags_model x :
-  k_pau_set_tminor x = t_minor x /\ k_pau_set_thet x = t_het x /\ k_pau_set_tmajor x = t_major x /\
-  k_pafd_set_tminor x = t_minor x /\ k_pafd_set_thet x = t_het x /\ k_pafd_set_tmajor x = t_major x.
+  k_pau_flag_tminor x = t_minor x /\ k_pau_flag_thet x = t_het x /\ k_pau_flag_tmajor x = t_major x /\
+  k_pafd_flag_tminor x = t_minor x /\ k_pafd_flag_thet x = t_het x /\ k_pafd_flag_tmajor x = t_major x.
 Proof. repeat split; reflexivity. Qed.
 (** the MOGS pipeline *)
 Definition k_mogs_pipeline (pf : float) (tfv : Q) : bool :=
@@ -215,8 +216,8 @@ Lemma kernel_is_model :
   (forall pl G s j, pfreq_f pl G s j = k_pfreq__pau (f_of_Z (acount G s j)) (f_of_Z (k_pfreq_den__pau pl (Z.of_nat (length s)))) /\
                     pfreq_f pl G s j = k_pfreq__mogs (f_of_Z (acount G s j)) (f_of_Z (k_pfreq_den__mogs pl (Z.of_nat (length s))))) /\
   (forall c pl k, k_pfreq__pafd (f_of_Z c) (f_of_Z (k_pfreq_den__pafd pl k)) = pfreq_of_count c (pl * k)) /\
-  (forall x, k_pau_set_tminor x = t_minor x /\ k_pau_set_thet x = t_het x /\ k_pau_set_tmajor x = t_major x /\
-             k_pafd_set_tminor x = t_minor x /\ k_pafd_set_thet x = t_het x /\ k_pafd_set_tmajor x = t_major x) /\
+  (forall x, k_pau_flag_tminor x = t_minor x /\ k_pau_flag_thet x = t_het x /\ k_pau_flag_tmajor x = t_major x /\
+             k_pafd_flag_tminor x = t_minor x /\ k_pafd_flag_thet x = t_het x /\ k_pafd_flag_tmajor x = t_major x) /\
   (forall n t M ids s, fam_subset n t M ids s = k_cat__FamilyEstimatedBreedingValueSubsetSelectionProblem Q (lin_subset t M s)
         (map k_famneg__FamilyEstimatedBreedingValueSubsetSelectionProblem (bincount (nfam ids) (famix ids) (famwt_subset n s)))) /\
   (forall a (l : list Q), k_cat__OptimalContributionSubsetSelectionProblem lv [Sq a] (map Ex l) = Sq a :: map Ex l) /\
